@@ -32,9 +32,11 @@ def marker(tag):
     return ('expr', call('systemLog', sq(tag)))
 
 
-FUNCTION_NAME_STEMS = ['fn'] * 8 + ['gr\u00f6\u00dfe', 'na\u00efve_len', 'x\u00b2', 'n\u0663', 'returnOf', 'iffy', 'forEach', 'whileOk', 'breaker', 'continued', 'elsewhere', 'endifx', 'jumper', 'jumpifx',
+FUNCTION_NAME_STEMS = ['fn'] * 8 + ['notify', 'andThen', 'orElse', 'nothing', 'gr\u00f6\u00dfe', 'na\u00efve_len', 'x\u00b2', 'n\u0663', 'returnOf', 'iffy', 'forEach', 'whileOk', 'breaker', 'continued', 'elsewhere', 'endifx', 'jumper', 'jumpifx',
                                   'included', 'functional', 'endfunctionx', 'elifx', 'endforx', 'endwhilex']
-KEYWORD_LIKE_VARIABLES = ['x\u00fcber', 'x\u0394', 'a\u00e9', 'returned', 'ifs', 'forx', 'whilst', 'breaks', 'jumps', 'elsex', 'continues', 'includes', 'functions', 'endifs', 'inx', 'nulls', 'truex']
+KEYWORD_LIKE_VARIABLES = ['x\u00fcber', 'x\u0394', 'a\u00e9', 'returned', 'ifs', 'forx', 'whilst', 'breaks', 'jumps', 'elsex', 'continues', 'includes', 'functions', 'endifs', 'inx', 'nulls', 'truex',
+                          # names that begin with (or are) the word operators of other languages
+                          'notFound', 'notes', 'nota', 'android', 'andy', 'order', 'orx', 'xor1', 'mod5', 'divide', 'isNull', 'inside', 'not', 'and', 'or', 'is', 'thenx', 'dox', 'eq', 'lte']
 
 
 class ProgGen:
